@@ -1,4 +1,5 @@
 SPECIFICATION Spec
+CONSTANTS LoaderVisitsAll = TRUE
 INVARIANTS Judge
 POSTCONDITION AllConsumed
 CHECK_DEADLOCK FALSE
